@@ -151,6 +151,16 @@ class HJoin:
         self.count = 0
 
 
+class HSpecList:
+    """A list abstracted by ghost state (`state`) with contract-supplied hooks for its
+    operations (e.g. `append` issues the tiling obligations and advances `last_stop`)."""
+
+    def __init__(self, name, hooks, state):
+        self.name = name
+        self.hooks = hooks
+        self.state = state
+
+
 class HDict:
     """Heap dict. concrete: python dict (concrete hashable keys -> values).
     symbolic: `has` Array(K->Bool), `val` Array(K->V), optional `order` Seq(K)."""
